@@ -139,6 +139,97 @@ def ofLeBytes : List Nat → Nat
   | [] => 0
   | x :: xs => x + 256 * ofLeBytes xs
 
+/-! ### Compiled replacements for the two conversions (no logical content beyond the equalities)
+
+`ofLeBytes` and `leBytes` are the obvious structural recursions; run on a megabyte they are quadratic (one big-number
+operation per byte) and recurse a million frames deep.  The divide-and-conquer versions below are proved equal and installed
+with `@[csimp]`, so that *compiled* code (the driver) uses them while every theorem keeps talking about the simple definitions. -/
+
+theorem ofLeBytes_append (a b : List Nat) : ofLeBytes (a ++ b) = ofLeBytes a + 256 ^ a.length * ofLeBytes b := by
+  induction a with
+  | nil => simp [ofLeBytes]
+  | cons x xs ih =>
+    simp only [List.cons_append, ofLeBytes, ih, List.length_cons, Nat.pow_succ]
+    rw [Nat.mul_add, ← Nat.mul_assoc, Nat.mul_comm 256 (256 ^ xs.length), Nat.add_assoc]
+
+def ofLeBytesDC : Nat → List Nat → Nat
+  | 0, l => ofLeBytes l
+  | f + 1, l =>
+    if l.length ≤ 32 then ofLeBytes l
+    else
+      let h := l.length / 2
+      ofLeBytesDC f (l.take h) + 256 ^ h * ofLeBytesDC f (l.drop h)
+
+theorem ofLeBytesDC_eq (f : Nat) (l : List Nat) : ofLeBytesDC f l = ofLeBytes l := by
+  induction f generalizing l with
+  | zero => rfl
+  | succ f ih =>
+    unfold ofLeBytesDC
+    split
+    · rfl
+    · simp only [ih]
+      have h1 : (l.take (l.length / 2)).length = l.length / 2 := by
+        rw [List.length_take]; omega
+      conv => rhs; rw [← List.take_append_drop (l.length / 2) l]
+      rw [ofLeBytes_append, h1]
+
+def ofLeBytesFast (l : List Nat) : Nat := ofLeBytesDC 64 l
+
+@[csimp] theorem ofLeBytes_eq_fast : @ofLeBytes = @ofLeBytesFast := by
+  funext l; exact (ofLeBytesDC_eq 64 l).symm
+
+theorem leBytes_mod (len N : Nat) : leBytes len (N % 256 ^ len) = leBytes len N := by
+  induction len generalizing N with
+  | zero => rfl
+  | succ n ih =>
+    simp only [leBytes]
+    have h1 : N % 256 ^ (n + 1) % 256 = N % 256 := by
+      rw [Nat.pow_succ, Nat.mul_comm]; exact Nat.mod_mul_right_mod N 256 (256 ^ n)
+    have h2 : N % 256 ^ (n + 1) / 256 = N / 256 % 256 ^ n := by
+      rw [Nat.pow_succ, Nat.mul_comm]; exact Nat.mod_mul_right_div_self N 256 (256 ^ n)
+    rw [h1, h2, ih]
+
+theorem leBytes_add (a b N : Nat) : leBytes (a + b) N = leBytes a (N % 256 ^ a) ++ leBytes b (N / 256 ^ a) := by
+  induction a generalizing N with
+  | zero => simp [leBytes]
+  | succ n ih =>
+    have e : n + 1 + b = (n + b) + 1 := by omega
+    rw [e]
+    simp only [leBytes, List.cons_append]
+    have h1 : N % 256 ^ (n + 1) % 256 = N % 256 := by
+      rw [Nat.pow_succ, Nat.mul_comm]; exact Nat.mod_mul_right_mod N 256 (256 ^ n)
+    have h2 : N % 256 ^ (n + 1) / 256 = N / 256 % 256 ^ n := by
+      rw [Nat.pow_succ, Nat.mul_comm]; exact Nat.mod_mul_right_div_self N 256 (256 ^ n)
+    have h3 : N / 256 ^ (n + 1) = N / 256 / 256 ^ n := by
+      rw [Nat.pow_succ, Nat.mul_comm, Nat.div_div_eq_div_mul]
+    rw [h1, h2, h3, ih (N / 256)]
+
+def leBytesDC : Nat → Nat → Nat → List Nat
+  | 0, len, N => leBytes len N
+  | f + 1, len, N =>
+    if len ≤ 32 then leBytes len N
+    else
+      let h := len / 2
+      leBytesDC f h (N % 256 ^ h) ++ leBytesDC f (len - h) (N / 256 ^ h)
+
+theorem leBytesDC_eq (f len N : Nat) : leBytesDC f len N = leBytes len N := by
+  induction f generalizing len N with
+  | zero => rfl
+  | succ f ih =>
+    unfold leBytesDC
+    split
+    · rfl
+    · simp only [ih]
+      have e : len = len / 2 + (len - len / 2) := by omega
+      conv => rhs; rw [e]
+      rw [leBytes_add]
+
+def leBytesFast (len N : Nat) : List Nat := leBytesDC 64 len N
+
+@[csimp] theorem leBytes_eq_fast : @leBytes = @leBytesFast := by
+  funext len N; exact (leBytesDC_eq 64 len N).symm
+
+
 /-! ## Numerals -/
 
 def ofDigits (ds : List Nat) : Nat := ds.foldl (fun a d => 10 * a + d) 0
